@@ -22,10 +22,13 @@ import (
 	remoteexecution "github.com/bazelbuild/remote-apis/build/bazel/remote/execution/v2"
 	"github.com/buildbarn/bb-storage/pkg/blobstore"
 	"github.com/buildbarn/bb-storage/pkg/blobstore/buffer"
+	"github.com/buildbarn/bb-storage/pkg/blobstore/local"
 	"github.com/buildbarn/bb-storage/pkg/blobstore/mirrored"
 	"github.com/buildbarn/bb-storage/pkg/blobstore/replication"
 	"github.com/buildbarn/bb-storage/pkg/blobstore/slicing"
+	"github.com/buildbarn/bb-storage/pkg/capabilities"
 	"github.com/buildbarn/bb-storage/pkg/digest"
+	"github.com/buildbarn/bb-storage/pkg/util"
 
 	"google.golang.org/grpc/codes"
 	"google.golang.org/grpc/status"
@@ -118,6 +121,32 @@ type c11Replica struct {
 	env  *c11Env
 	mu   sync.Mutex
 	data map[int]int
+	// configuration (b): the contents live in a real local CAS store; this
+	// type then only injects faults and logs calls.
+	real blobstore.BlobAccess
+}
+
+// c11NewLocalStore wires a real in-memory local store the way
+// configuration.NewBlobAccessFromConfiguration does (flat, volatile block
+// list).  Blocks are far larger than anything a case writes, so no object
+// ever moves to an "old" block and no read needs a refresh (refreshing reads
+// hand out buffers with background tasks whose cloning panics on the pinned
+// tree, finding F1 / property C15).
+func c11NewLocalStore(name int) blobstore.BlobAccess {
+	const blockSize = 1 << 14
+	const entries = 64
+	blockList := local.NewVolatileBlockList(local.NewInMemoryBlockAllocator(blockSize))
+	lbm := local.NewOldCurrentNewLocationBlobMap(blockList, local.NewImmutableBlockListGrowthPolicy(2, 2),
+		util.DefaultErrorLogger, "c11", blockSize, 2, 2, 0)
+	lra := local.NewInMemoryLocationRecordArray(entries, lbm)
+	klm := local.NewHashingKeyLocationMap(lra, entries, 0x9e3779b97f4a7c15+uint64(name), 8, 32, "c11")
+	return local.NewFlatBlobAccess(klm, lbm, digest.KeyWithoutInstance, &sync.RWMutex{}, "c11",
+		capabilities.NewStaticProvider(&remoteexecution.ServerCapabilities{}))
+}
+
+func (r *c11Replica) realHas(ctx context.Context, i int) bool {
+	missing, err := r.real.FindMissing(ctx, c11Digests[i].ToSingletonSet())
+	return err == nil && missing.Empty()
 }
 
 func (r *c11Replica) letter() string { return string(rune('A' + r.name)) }
@@ -139,6 +168,12 @@ func (r *c11Replica) Get(ctx context.Context, d digest.Digest) buffer.Buffer {
 	}
 	if c := r.env.call(r.name, 0, i); c != 0 {
 		return buffer.NewBufferFromError(r.inj(c))
+	}
+	if r.real != nil {
+		if !r.realHas(ctx, i) {
+			return buffer.NewBufferFromError(status.Error(codes.NotFound, "nf@"+r.letter()))
+		}
+		return r.real.Get(ctx, d)
 	}
 	r.mu.Lock()
 	cid, ok := r.data[i]
@@ -172,6 +207,9 @@ func (r *c11Replica) Put(ctx context.Context, d digest.Digest, b buffer.Buffer) 
 		b.Discard()
 		return r.inj(c)
 	}
+	if r.real != nil {
+		return r.real.Put(ctx, d, b)
+	}
 	data, err := b.ToByteSlice(1 << 10)
 	if err != nil {
 		return err
@@ -185,6 +223,9 @@ func (r *c11Replica) Put(ctx context.Context, d digest.Digest, b buffer.Buffer) 
 func (r *c11Replica) FindMissing(ctx context.Context, ds digest.Set) (digest.Set, error) {
 	if c := r.env.call(r.name, 2, 0); c != 0 {
 		return digest.EmptySet, r.inj(c)
+	}
+	if r.real != nil {
+		return r.real.FindMissing(ctx, ds)
 	}
 	sb := digest.NewSetBuilder(0)
 	r.mu.Lock()
@@ -203,6 +244,21 @@ func (r *c11Replica) snapshot(n int) Sx {
 	r.mu.Lock()
 	defer r.mu.Unlock()
 	l := make([]Sx, n)
+	if r.real != nil {
+		for i := 0; i < n; i++ {
+			l[i] = A(-1)
+			if r.realHas(context.Background(), i) {
+				// read it back: the store must hold the object's own bytes
+				data, err := r.real.Get(context.Background(), c11Digests[i]).ToByteSlice(1 << 10)
+				if err != nil {
+					l[i] = A(78)
+				} else {
+					l[i] = AI(c11ContentID(i, data))
+				}
+			}
+		}
+		return L(l...)
+	}
 	for i := 0; i < n; i++ {
 		if c, ok := r.data[i]; ok {
 			l[i] = AI(c)
@@ -304,23 +360,37 @@ func (c11) Exec(in Sx) (Sx, bool) {
 	if !okA || !okB || in.Nth(3).IsAtom {
 		return Sx{}, false
 	}
-	flavour, how := 0, 0
+	flavour, how, real := 0, 0, 0
 	if in.Len() == 5 {
-		cfg, ok := c11Atoms(in.Nth(4), 2)
-		if !ok || cfg[0] < 0 || cfg[0] > 2 || cfg[1] < 0 || cfg[1] > 3 {
+		cfg, ok := c11Atoms(in.Nth(4), -1)
+		if !ok || len(cfg) < 2 || len(cfg) > 3 || cfg[0] < 0 || cfg[0] > 2 || cfg[1] < 0 || cfg[1] > 3 {
 			return Sx{}, false
 		}
 		flavour, how = cfg[0], cfg[1]
+		if len(cfg) == 3 {
+			if cfg[2] < 0 || cfg[2] > 1 {
+				return Sx{}, false
+			}
+			real = cfg[2]
+		}
 	}
 	env := &c11Env{flavour: flavour}
 	mk := func(name int, init []int) (*c11Replica, bool) {
 		r := &c11Replica{name: name, env: env, data: map[int]int{}}
+		if real == 1 {
+			r.real = c11NewLocalStore(name)
+		}
 		for i, c := range init {
-			if c > 99 || c < -1 {
+			if c > 99 || c < -1 || (real == 1 && c > 0) {
 				return nil, false
 			}
 			if c >= 0 {
 				r.data[i] = c
+				if real == 1 {
+					if err := r.real.Put(context.Background(), c11Digests[i], buffer.NewValidatedBufferFromByteSlice(c11Content(i, 0))); err != nil {
+						return nil, false
+					}
+				}
 			}
 		}
 		return r, true
@@ -363,7 +433,7 @@ func (c11) Exec(in Sx) (Sx, bool) {
 				return Sx{}, false
 			}
 			p.d, p.x, p.src = o.Nth(2).Int(), o.Nth(3).Int(), o.Nth(4).Int()
-			if p.x < 0 || p.x > 99 || p.src < 0 || p.src > 2 {
+			if p.x < 0 || p.x > 99 || p.src < 0 || p.src > 2 || (real == 1 && p.x != 0) {
 				return Sx{}, false
 			}
 		case 2:
@@ -576,7 +646,11 @@ func (c11) Gen(r *Rand, i int, tier string) Sx {
 	if i < len(c11Sys) {
 		c := c11Sys[i]
 		// vary what the replicas hand out and how the result is consumed
-		return L(c.Nth(0), c.Nth(1), c.Nth(2), c.Nth(3), L(AI(r.Intn(3)), AI(r.Intn(3))))
+		real := 0
+		if c11AllCanonical(c) && r.Chance(35) {
+			real = 1
+		}
+		return L(c.Nth(0), c.Nth(1), c.Nth(2), c.Nth(3), L(AI(r.Intn(3)), AI(r.Intn(3)), AI(real)))
 	}
 	hostile := r.Chance(25)
 	n := 1 + r.Intn(4)
@@ -647,7 +721,29 @@ func (c11) Gen(r *Rand, i int, tier string) Sx {
 			ops = append(ops, c11Cap(f))
 		}
 	}
-	return L(AI(n), LInts(a), LInts(b), L(ops...), L(AI(r.Intn(3)), AI(r.Intn(3))))
+	real := 0
+	if !versions && r.Chance(35) {
+		real = 1
+	}
+	return L(AI(n), LInts(a), LInts(b), L(ops...), L(AI(r.Intn(3)), AI(r.Intn(3)), AI(real)))
+}
+
+// c11AllCanonical: every content id of the case is 0 (the hash-correct
+// content), as a real CAS store requires.
+func c11AllCanonical(c Sx) bool {
+	for _, l := range []Sx{c.Nth(1), c.Nth(2)} {
+		for _, x := range l.List {
+			if x.Z > 0 {
+				return false
+			}
+		}
+	}
+	for _, o := range c.Nth(3).List {
+		if o.Nth(0).Int() == 1 && o.Nth(3).Int() != 0 {
+			return false
+		}
+	}
+	return true
 }
 
 func (c11) Class(in, obs Sx) (string, bool) {
@@ -677,6 +773,9 @@ func (c11) Class(in, obs Sx) (string, bool) {
 		first = "B"
 	}
 	cl := kinds[k] + "/" + res
+	if in.Nth(4).Len() == 3 && in.Nth(4).Nth(2).Int() == 1 {
+		cl = kinds[k] + "-localstores/" + res
+	}
 	if k == 0 || k == 3 {
 		cl += "/first" + first
 	}
